@@ -116,6 +116,14 @@ def rule_closure(ctx, eff):
         rets = [o for o in outs if o.kind == "return"]
         ok = bool(rets) and all(isinstance(r.value, ObjV) and r.value.cls == "binary_sequence" for r in rets)
         ctx.check("C15.2", ok, m, rets[0].node if rets else m.node, f"binary_sequence.{meth} returns binary_sequence(...)", "validating constructor", f"{meth} returns a bare value instead of a validated binary_sequence")
+        if meth == "__getitem__" and ok:
+            # indexing is numpy's own: the key goes to the stored array as it came (every slice, negative steps and open bounds included)
+            key = [a.arg for a in m.node.args.args if a.arg != "self"]
+            wantd = Form.atom(("idx", S("self.data"), S(key[0]))) if key else None
+            bad = [r for r in rets if not (isinstance(r.value.fields.get("data"), Form) and r.value.fields.get("data") == wantd)]
+            ctx.check("C15.2", not bad, m, (bad[0].node if bad else rets[0].node), f"binary_sequence.__getitem__: data = {(bad[0] if bad else rets[0]).value.fields.get('data')!r}"[:300], "self.data[key] with the key as given",
+                      "the key is rewritten before it reaches the array (e.g. slice.indices(): its stop of -1 for a negative step means 'past index 0' and, fed back into a slice, means 'last element'): "
+                      "a[::-1] and other slices no longer select what numpy selects")
         s = eff.sum[m.qualname]
         roots = [(p, path) for (p, path) in s.ret if not path.endswith((".size", ".shape"))]
         ctx.check("C15.3", not roots and not s.mutates, m, m.node, f"binary_sequence.{meth}: result fresh, operands unwritten", "no aliasing, no in-place write",
